@@ -18,7 +18,7 @@ CHECKS = {
         level='fault_enumeration', design='DESIGN.md §4 C18',
         technique='SMT reachability (z3) over MIR unwind edges: CFG x drop-flags x lock/write monitor per closure call site; native panic-injection replay',
         text='Fault enumeration over every user-closure call site found in the MIR of the current tree: z3 decides, complete for the finite CFG x drop-flag x monitor product, whether an unwind path from the closure reaches resume with a bin lock held (U1), writes/retires shared state while unwinding (U2), follows a shared write made earlier in the same critical section (U3) or drops a poisoning std MutexGuard (U4). A sat answer is replayed natively with a panic at every i-th invocation, comparing the map with a model and writing to the same bin from a second thread under a watchdog.',
-        note='Only panics of the closures named by the property are fault points. Effect classes are assigned by callee name. Contents-vs-count consistency after a panic in retain is not decided by this path check (it is what the concrete-heap engine is for); see DESIGN.md.'),
+        note='Only panics of the closures named by the property are fault points. Effect classes are assigned by callee name. The semantic half injects the panic in the concrete-heap interpreter (unwinding through the MIR cleanup blocks) at every i-th invocation and checks contents, count, locks and later operations against the reference.'),
     'C12': dict(
         level='model_checking', design='DESIGN.md §4 C12',
         technique='SMT reachability (z3) over MIR CFGs with a least fixed point over the crate call graph (no path from a read entry point to a blocking primitive) + cycle-without-progress queries on the read loops in isolation; native suspended-writer replay',
@@ -39,6 +39,36 @@ CHECKS = {
         technique='Horn-clause query (z3) over impl/method where-predicates from rustdoc JSON for every inserting entry point; rustc compiling probe programs with Send+!Sync, Sync+!Send and !Send+!Sync key/value types as replay oracle',
         text='Every inserting entry point (discovered from rustdoc JSON with features serde,rayon: by-value K/V/T parameters, value-producing closures, Extend/FromIterator/Clone/Deserialize/FromParallelIterator/ParallelExtend impls) must have bounds that entail K,V: Send+Sync (z3 query per entry point); read-only entry points must not. 150+ probe programs instantiate each entry point with three kinds of non-thread-safe types as key and as value and must be rejected by rustc; controls with thread-safe types and a read-only program over !Send+!Sync types must compile.',
         note='rustc\'s trait solver is the oracle; entry points without a probe template are listed in the evidence and are inconclusive if the solver finds their bounds insufficient.'),
+    'C02': dict(
+        level='model_checking', design='DESIGN.md §4 C02',
+        technique="mode B: KLEE-style concrete-heap symbolic interpreter over the MIR of the current tree (own engine, fv/modeb.py), symbolic keys/hashes, all feasible paths enumerated with z3 deciding every branch and every comparison with the reference; native (and Miri) replay of the solver's model",
+        text="Every public single-threaded operation (insert, try_insert, get, get_key_value, contains_key, remove, remove_entry, compute_if_present Some/None, retain, retain_force, clear, len, reserve, iteration, collect) is executed from flurry's own MIR on a concrete heap with SYMBOLIC keys and a symbolic or class-chosen hash function; all feasible paths of each script are explored (z3 decides each branch; the disjunction of the path conditions is checked to be valid) and every return value, the identity of the stored key instance, len() and the final contents are compared with a reference association list over the same symbolic terms. Scripts: all pairs of 13 operation kinds after two inserts, 2-bin tables (resizes), constant/identity/arbitrary hashers, both facades, 10-op scripts across two resizes, 64-bin tables with a 10-node tree bin. A counterexample model is replayed natively against std's map.",
+        note='Bounded: scripts of 4-10 operations, universe of 2-4 keys (12 for tree bins), listed hash classes, capacities 0-3 and 40. Debug/Index formatting, clone/eq and the set relations are not scripted; the owned-guard path of pin() is replaced by with_guard (same MIR below). std/seize/parking_lot are modelled (list in the evidence).'),
+    'C03': dict(
+        level='model_checking', design='DESIGN.md §4 C03',
+        technique="mode B: KLEE-style concrete-heap symbolic interpreter over the MIR of the current tree (own engine, fv/modeb.py), symbolic keys/hashes, all feasible paths enumerated with z3 deciding every branch and every comparison with the reference; native (and Miri) replay of the solver's model",
+        text='The same interpreter runs with a reclamation ledger: every allocation, retirement and reclamation is tracked; reading or writing a reclaimed object, retiring twice, freeing twice, retiring a freed object, or dropping a value that was handed out under a still-live guard is a violation on that path. Includes bulk construction (FromIterator with every lower size hint 0..n-1, spread and colliding keys, crossing resizes), scripts with guard refreshes so that reclamation really happens mid-script, tree-bin conversions and resizes of shrunk tree bins. A finding is replayed natively and under Miri.',
+        note='Sequential only: reader/retirer interleavings, collector batch sizes and seize itself are NOT covered (seize under real threads is the trusted base). Bounds as C02 (core alphabet).'),
+    'C04': dict(
+        level='model_checking', design='DESIGN.md §4 C04',
+        technique="mode B: KLEE-style concrete-heap symbolic interpreter over the MIR of the current tree (own engine, fv/modeb.py), symbolic keys/hashes, all feasible paths enumerated with z3 deciding every branch and every comparison with the reference; native (and Miri) replay of the solver's model",
+        text='Drop ledger in the interpreter: every key/value instance (including the clones transfer/treeify/untreeify make) must be dropped exactly once by the time the guard, the map and everything retired are gone; nothing may be dropped while handed out under a live guard; a refused try_insert value must come back intact and undropped; no allocation may remain. Crate Drop impls (HashMap, Table, TreeBin) and the custom tree-bin reclaimer run from MIR. Counterexamples are replayed natively with instance-counting key/value types.',
+        note='Sequential only; the CAS-retry path of put (needs a concurrent CAS failure) is not reached. Bounds as C02 (core alphabet) plus shrunk-tree-bin resize scenarios.'),
+    'C05': dict(
+        level='model_checking', design='DESIGN.md §4 C05',
+        technique="mode B: KLEE-style concrete-heap symbolic interpreter over the MIR of the current tree (own engine, fv/modeb.py), symbolic keys/hashes, all feasible paths enumerated with z3 deciding every branch and every comparison with the reference; native (and Miri) replay of the solver's model",
+        text='Quiescence oracle evaluated on the concrete heap at the end of every path (thorough: after every step): power-of-two table, next_table null, size_ctl = 0.75*len, no forwarding marker, every node in bin hash&(len-1) and stored hash = hash(key) (solver queries over the symbolic hash), no key twice (solver), count = len() = number of entries, is_empty agrees, iter/keys/values yield exactly the reference, get finds every entry. Native replay through the injected inspector.',
+        note='Quiescent points after sequential histories only (any number of resizes, tree conversions, clears within the script bounds); concurrent histories are outside.'),
+    'C06': dict(
+        level='model_checking', design='DESIGN.md §4 C06',
+        technique="mode B: KLEE-style concrete-heap symbolic interpreter over the MIR of the current tree (own engine, fv/modeb.py), symbolic keys/hashes, all feasible paths enumerated with z3 deciding every branch and every comparison with the reference; native (and Miri) replay of the solver's model",
+        text='The real tree code (TreeBin::new, find_or_put_tree_val, remove_tree_node, balance_insertion/deletion, rotations, untreeify, resize splits) is executed from MIR on tree bins of 9-11 (thorough 9-14) colliding keys, equal hashes and same-bin/different-hash, for every pair (thorough: triple) of insert/remove with symbolic keys over stored and absent keys; after every step the red-black, BST-order (solver), parent/child, prev/next and tree-vs-list invariants are checked and the key comparisons per lookup are counted against 4*ceil(log2(n+1))+2. Native replay re-checks the invariants through the inspector dump.',
+        note='History-based (all shapes reachable from treeification + bounded op sequences), not an inductive step from an arbitrary valid tree; n <= 14. The tree-bin reader/writer lock state after CONTENDED writes is not reachable sequentially (see C11).'),
+    'C13': dict(
+        level='other', design='DESIGN.md §4 C13',
+        technique="mode B: KLEE-style concrete-heap symbolic interpreter over the MIR of the current tree (own engine, fv/modeb.py), symbolic keys/hashes, all feasible paths enumerated with z3 deciding every branch and every comparison with the reference; native (and Miri) replay of the solver's model",
+        text="Sequential core of retain/retain_force in the interpreter with symbolic predicate answers, list and tree bins, both facades, plus the only single-thread route into the inspection-to-removal window: the predicate itself replaces the inspected entry's value through the real insert and then rejects it - retain must keep the replaced entry, retain_force must remove it. Every entry must be visited once with its own key instance and current value. Native replay.",
+        note='Level other: interleavings with other threads are not explored; the window is entered re-entrantly from the predicate. Bounds: 3 entries in 2-bin tables, 10 in a tree bin.'),
 }
 
 NOT_APPLICABLE = {
